@@ -157,7 +157,7 @@ impl Workspace {
     ) -> io::Result<Checkpoint> {
         let checkpoint_id = Uuid::new_v4().to_string();
         let label = label.into();
-        let created_at_ms = now_ms();
+        let created_at_ms = next_created_at_ms();
         let checkpoint_root = self.checkpoints_dir.join(session_id).join(&checkpoint_id);
         let files_root = checkpoint_root.join("files");
 
@@ -234,7 +234,9 @@ impl Workspace {
             }
         }
 
-        checkpoints.sort_by_key(|checkpoint| checkpoint.created_at_ms);
+        // Creation order; the id breaks a tie between stamps written by different processes, so
+        // that the listing never depends on the order in which the directory is read.
+        checkpoints.sort_by(|a, b| (a.created_at_ms, &a.id).cmp(&(b.created_at_ms, &b.id)));
         Ok(checkpoints)
     }
 
@@ -378,6 +380,23 @@ fn now_ms() -> u64 {
         .duration_since(UNIX_EPOCH)
         .map(|d| d.as_millis() as u64)
         .unwrap_or(0)
+}
+
+/// Creation stamp of a checkpoint: the wall clock in milliseconds, but strictly increasing within
+/// the process, so that two checkpoints taken in the same millisecond are still listed in the
+/// order in which they were created.
+fn next_created_at_ms() -> u64 {
+    use std::sync::atomic::{AtomicU64, Ordering};
+    static LAST: AtomicU64 = AtomicU64::new(0);
+    let now = now_ms();
+    let mut last = LAST.load(Ordering::SeqCst);
+    loop {
+        let stamp = now.max(last.saturating_add(1));
+        match LAST.compare_exchange(last, stamp, Ordering::SeqCst, Ordering::SeqCst) {
+            Ok(_) => return stamp,
+            Err(seen) => last = seen,
+        }
+    }
 }
 
 fn hash_bytes(bytes: &[u8]) -> String {
